@@ -36,6 +36,8 @@ def run(ctx):
         m = rp["meta"]
         if m["mode"] == "misuse":
             return misuse_leg(ctx, exe, [m["kind"]]) or ctx.finish("replay", 2)
+        if m["mode"] == "stall":
+            return stall_leg(ctx, exe, [m["ms"]]) or ctx.finish("replay", 2)
         x = exe_tsan if m.get("tsan") else exe
         rc, out, to, logp = one_run(ctx, x, m["seed"], m["threads"], m["ops"], "replay", m.get("yield", 1))
         judge(ctx, rc, out, to, logp, m, "replay")
@@ -76,16 +78,21 @@ def run(ctx):
     if unexercised and not ctx.violations:
         raise Infra("thread-safe entry points never exercised: %s" % unexercised)
 
+    # ---- one thread slow inside the locked region (a starved thread, a slow user allocator): however long the lock is held, nobody else enters
+    stall_leg(ctx, exe, [200, 3600] if quick else [50, 1000, 3600, 6500, 11000])
     # ---- misuse while the lock is held: reported as a failure, run continues, lock not left held (deadline = no hang)
-    misuse_leg(ctx, exe, [0, 1, 2, 3])
+    misuse_leg(ctx, exe, [0, 1, 2, 3, 4, 5])
     return ctx.finish(
         rule="executions = real multi-threaded runs (2..16 threads, seeded scripts through all eleven thread-safe entry points, forced yields at "
              "lock acquire/release) whose totally ordered event logs (mutex seams + hook H3 table events) are validated by TLC against the lock "
-             "protocol; plus the same harness under ThreadSanitizer; plus three misuse-while-locked scenarios under a deadline; non-trivial = a run "
+             "protocol; plus the same harness under ThreadSanitizer; plus six failure-while-locked scenarios (overrun, foreign and double release, overrun after a detector swap, an allocator that fails the test "
+             "because it cannot satisfy a new[] / malloc request) under a deadline; non-trivial = a run "
              "with more than 10 lock-owner switches",
         distinct_nontrivial=max(2, nontrivial) if nontrivial >= 2 else nontrivial,
         assumptions=["real schedules are sampled (seeds x forced yields), enumeration is done on the model",
                      "events are ordered by an atomic sequence counter taken inside the lock (H3) / inside the seam wrappers",
+                     "a long hold of the lock is exercised with an allocator that sleeps inside the locked region (up to 3.6 s in the quick tier, 11 s in the thorough tier) "
+                     "while two other threads allocate; longer holds are not sampled",
                      "misuse on a worker thread (longjmp across threads) is outside the claim; misuse is exercised on the test's own thread"])
 
 
@@ -115,8 +122,16 @@ def judge(ctx, rc, out, to, logp, meta, label):
     return {"events": len(log), "switches": switches, "entries": log[-1]["entries"], "head": log[:6]}
 
 
+def stall_leg(ctx, exe, holds):
+    for ms in holds:
+        logp = os.path.join(ctx.work, "stall-%d.ndjson" % ms)
+        rc, out, to = ctx.run([exe, "stall", str(ms), logp], timeout=ms // 1000 + 60)
+        judge(ctx, rc, out, to, logp, {"mode": "stall", "ms": ms}, "stall-%dms" % ms)
+    return None
+
+
 def misuse_leg(ctx, exe, kinds):
-    names = {0: "overrun", 1: "foreign", 2: "double", 3: "overrun-after-detector-swap"}
+    names = {0: "overrun", 1: "foreign", 2: "double", 3: "overrun-after-detector-swap", 4: "allocator-refuses-new[]", 5: "allocator-refuses-malloc"}
     for k in kinds:
         logp = os.path.join(ctx.work, "misuse-%d.ndjson" % k)
         rc, out, to = ctx.run([exe, "misuse", str(k), logp], timeout=20)
